@@ -647,7 +647,12 @@ def frozen_across_runs(rep: Report, rng: random.Random):
                 m = flow
                 for j, kind in enumerate(order):
                     before = [np.asarray(l).copy() for l in jax.tree_util.tree_leaves(unwrap(getattr(m, other))) if eqx.is_inexact_array(l)]
+                    structure = jax.tree_util.tree_structure(m)
                     m = run(kind, m, jr.PRNGKey(10 + j))
+                    if jax.tree_util.tree_structure(m) != structure:
+                        rep.violation({"history": list(order), "frozen": which, "what": "returned model has another pytree structure"},
+                                      f"run {j} ({kind}) returned a model whose pytree structure differs from the one it was given "
+                                      f"(wrappers -- frozen marks, reparameterisations -- were dropped or added)")
                     after = [np.asarray(l) for l in jax.tree_util.tree_leaves(unwrap(getattr(m, other))) if eqx.is_inexact_array(l)]
                     if all(np.array_equal(a, b) for a, b in zip(before, after)):
                         rep.machinery_failure(f"frozen_across_runs: run {j} ({kind}) moved nothing that is trainable")
